@@ -54,6 +54,9 @@ type constructorNode struct {
 	building      bool
 	buildingSince uint64
 
+	// Whether the constructor function itself is executing right now.
+	running bool
+
 	// Type information about constructor parameters.
 	paramList paramList
 
@@ -157,7 +160,7 @@ func (n *constructorNode) Call(c containerStore) (err error) {
 	// built may be entered again only by a decorator of one of its
 	// dependencies that consumes its result; anything else is a cycle.
 	root := n.s.rootScope()
-	if n.building && n.buildingSince == root.decoratorsStarted {
+	if n.running || (n.building && n.buildingSince == root.decoratorsStarted) {
 		return newErrInvalidInput("cycle detected in dependency graph", &errCycleDetected{
 			Path:  []cycleErrPathEntry{{Key: key{t: n.ctype}, Func: n.location}},
 			scope: n.origS,
@@ -219,6 +222,10 @@ func (n *constructorNode) Call(c containerStore) (err error) {
 	}
 
 	receiver := newStagingContainerWriter()
+	// While the function itself runs no demand for its results can be met,
+	// whoever asks: not even a decorator may enter it again.
+	n.running = true
+	defer func() { n.running = false }()
 	results := c.invoker()(reflect.ValueOf(n.ctor), args)
 	if err = n.resultList.ExtractList(receiver, false /* decorating */, results); err != nil {
 		return errConstructorFailed{Func: n.location, Reason: err}
